@@ -4,6 +4,7 @@
 #include "explore.hpp"
 #include "vfc.hpp"
 #include <condition_variable>
+#include <future>
 #include <mutex>
 #include <thread>
 
@@ -98,6 +99,51 @@ static void toy_trylock(std::string &obs) {
   obs = "got=" + std::to_string(got) + ",busy=" + std::to_string(busy);
 }
 
+// 6. a flag read right after leaving a critical section (no hook, no lock): only explorable because a mutex release is followed by
+//    a scheduling point. Worker: hand over under the lock, then leave early if `over` is (already) set; main sets `over` and serves.
+static void toy_after_unlock(std::string &obs) {
+  std::mutex m; std::condition_variable cv; bool handed = false, over = false; int served = 0, left_early = 0;
+  vs_begin();
+  std::thread w([&] { { std::lock_guard<std::mutex> l(m); handed = true; cv.notify_all(); } if (over) { left_early = 1; return; } std::lock_guard<std::mutex> l(m); served = 1; });
+  { std::unique_lock<std::mutex> l(m); while (!handed) cv.wait(l); }
+  over = true;
+  w.join();
+  vs_end();
+  obs = "served=" + std::to_string(served) + ",early=" + std::to_string(left_early);
+}
+// 7. std::async / std::future (futex words + call_once inside libstdc++): a correct use has one outcome and never deadlocks;
+//    reading the helper's result before get() has two
+template <bool EARLY> static void toy_async(std::string &obs) {
+  int cell = 0, seen = -1;
+  vs_begin();
+  {
+    std::future<void> f = std::async(std::launch::async, [&] { vs_point(1, 0); vs_access(0, 1, 1); cell = 7; });
+    if (EARLY) { vs_point(2, 0); vs_access(0, 0, 2); seen = cell; f.get(); }
+    else { f.get(); vs_point(2, 0); vs_access(0, 0, 2); seen = cell; }
+  }
+  vs_end();
+  obs = "seen=" + std::to_string(seen) + ",races=" + std::to_string(vs_nraces);
+}
+// 7b. promise/future hand-over between two threads: the waiter really parks on the futex word
+static void toy_promise(std::string &obs) {
+  std::promise<int> p; std::future<int> f = p.get_future(); int got = 0;
+  vs_begin();
+  std::thread c([&] { got = f.get(); });
+  std::thread s([&] { vs_point(1, 0); p.set_value(5); });
+  c.join(); s.join();
+  vs_end();
+  obs = "got=" + std::to_string(got);
+}
+// 7c. a future nobody fulfils: the waiter is blocked on a futex word for ever = deadlock, not a hang of the explorer
+static void toy_promise_never(std::string &obs) {
+  std::promise<int> p; std::future<int> f = p.get_future();
+  vs_begin();
+  std::thread c([&] { f.wait(); });
+  c.join();
+  vs_end();
+  obs = "done";
+}
+
 static int fails = 0;
 static void expect(bool cond, const std::string &name, const std::string &detail) {
   J().s("t", "selftest").s("name", name).bo("ok", cond).s("detail", detail).emit();
@@ -130,6 +176,11 @@ int main() {
   r = explore(toy_trylock, 2, false, 0); expect(r.obs.count("ok:got=1,busy=1") && r.obs.count("ok:got=2,busy=0") && !r.deadlock, "try_lock modelled (both outcomes seen, no deadlock)", show(r));
   // delay bounding explores a subset of preemption bounding at the same bound
   Result d = explore(toy_counter, 1, false, 0, true); expect(!d.obs.empty(), "delay-bounded mode runs", show(d));
+  r = explore(toy_after_unlock, 1, false, 0); expect(r.obs.count("ok:served=0,early=1") && r.obs.count("ok:served=1,early=0"), "an unsynchronised read right after a mutex release is interleaved (post-unlock scheduling point)", show(r));
+  r = explore(toy_async<false>, 2, false, 0); expect(r.obs.size() == 1 && r.obs.count("ok:seen=7,races=0") && !r.deadlock, "std::async + get(): one outcome, no race, no deadlock (futex words and call_once modelled)", show(r));
+  r = explore(toy_async<true>, 2, false, 0); expect(r.obs.size() >= 2 && !r.deadlock, "std::async result read before get(): both outcomes and the race are seen", show(r));
+  r = explore(toy_promise, 2, false, 0); expect(r.obs.size() == 1 && r.obs.count("ok:got=5") && !r.deadlock, "promise/future hand-over: waiter parks on the futex word and is released", show(r));
+  r = explore(toy_promise_never, 1, false, 0); expect(r.deadlock, "a future that is never fulfilled is reported as a deadlock", show(r));
   J().s("t", "selftest-summary").n("failed", fails).emit();
   return fails ? 1 : 0;
 }
